@@ -109,22 +109,22 @@ theorem parseUsize_natDigits (n : Nat) (h : n < 2 ^ 64) : parseUsize (natDigits 
   simp
 
 
-/-! ### `sciToPlain` on the shapes `decQuadToString` produces -/
+/-! ### `sciToPlainU` on the shapes `decQuadToString` produces -/
 
-theorem sciToPlain_noE (s : List Char) (h : 'E' ∉ s) : sciToPlain s = some s := by
-  unfold sciToPlain
+theorem sciToPlainU_noE (s : List Char) (h : 'E' ∉ s) : sciToPlainU s = some s := by
+  unfold sciToPlainU
   rw [breakOn2_none _ _ _ h, breakOn2_none _ _ _ h]
 
-theorem sciToPlain_plus_dot (b a : List Char) (n : Nat) (hb : '.' ∉ b) (ha : '.' ∉ a)
+theorem sciToPlainU_plus_dot (b a : List Char) (n : Nat) (hb : '.' ∉ b) (ha : '.' ∉ a)
     (hbE : 'E' ∉ b) (haE : 'E' ∉ a) (hn : n < 2 ^ 64) (hlen : a.length ≤ n) :
-    sciToPlain ((b ++ '.' :: a) ++ 'E' :: '+' :: natDigits n) = some (b ++ a ++ zeros (n - a.length)) := by
+    sciToPlainU ((b ++ '.' :: a) ++ 'E' :: '+' :: natDigits n) = some (b ++ a ++ zeros (n - a.length)) := by
   have hm : 'E' ∉ b ++ '.' :: a := by
     simp only [List.mem_append, List.mem_cons]
     intro h; rcases h with h | h | h
     · exact hbE h
     · exact absurd h (by decide)
     · exact haE h
-  unfold sciToPlain
+  unfold sciToPlainU
   rw [breakOn2_found _ _ _ _ hm]
   simp only []
   rw [upTo2_none _ _ _ (allDigits_natDigits n).not_mem_E, parseUsize_natDigits n hn]
@@ -133,19 +133,20 @@ theorem sciToPlain_plus_dot (b a : List Char) (n : Nat) (hb : '.' ∉ b) (ha : '
   simp only []
   rw [upTo1_none _ _ ha, if_neg (by omega)]
 
-theorem sciToPlain_plus_nodot (m : List Char) (n : Nat) (hm : '.' ∉ m) (hmE : 'E' ∉ m)
+theorem sciToPlainU_plus_nodot (m : List Char) (n : Nat) (hm : '.' ∉ m) (hmE : 'E' ∉ m)
     (hn : n < 2 ^ 64) :
-    sciToPlain (m ++ 'E' :: '+' :: natDigits n) = some (m ++ zeros n) := by
-  unfold sciToPlain
+    sciToPlainU (m ++ 'E' :: '+' :: natDigits n)
+      = if m.all (· == '0') then some ['0'] else some (m ++ zeros n) := by
+  unfold sciToPlainU
   rw [breakOn2_found _ _ _ _ hmE]
   simp only []
   rw [upTo2_none _ _ _ (allDigits_natDigits n).not_mem_E, parseUsize_natDigits n hn]
   simp only []
   rw [breakOn1_none _ _ hm]
 
-theorem sciToPlain_minus_dot (b a : List Char) (n : Nat) (hb : '.' ∉ b) (ha : '.' ∉ a)
+theorem sciToPlainU_minus_dot (b a : List Char) (n : Nat) (hb : '.' ∉ b) (ha : '.' ∉ a)
     (hbE : 'E' ∉ b) (haE : 'E' ∉ a) (hn : n < 2 ^ 64) :
-    sciToPlain ((b ++ '.' :: a) ++ 'E' :: '-' :: natDigits n)
+    sciToPlainU ((b ++ '.' :: a) ++ 'E' :: '-' :: natDigits n)
       = some (['0', '.'] ++ zeros (n - 1) ++ b ++ a) := by
   have hm : 'E' ∉ b ++ '.' :: a := by
     simp only [List.mem_append, List.mem_cons]
@@ -153,7 +154,7 @@ theorem sciToPlain_minus_dot (b a : List Char) (n : Nat) (hb : '.' ∉ b) (ha : 
     · exact hbE h
     · exact absurd h (by decide)
     · exact haE h
-  unfold sciToPlain
+  unfold sciToPlainU
   rw [breakOn2_other _ _ _ _ _ hm (allDigits_natDigits n).not_mem_E (by decide) (by decide)]
   simp only []
   rw [breakOn2_found _ _ _ _ hm]
@@ -164,10 +165,10 @@ theorem sciToPlain_minus_dot (b a : List Char) (n : Nat) (hb : '.' ∉ b) (ha : 
   simp only []
   rw [upTo1_none _ _ ha]
 
-theorem sciToPlain_minus_nodot (m : List Char) (n : Nat) (hm : '.' ∉ m) (hmE : 'E' ∉ m)
+theorem sciToPlainU_minus_nodot (m : List Char) (n : Nat) (hm : '.' ∉ m) (hmE : 'E' ∉ m)
     (hn : n < 2 ^ 64) :
-    sciToPlain (m ++ 'E' :: '-' :: natDigits n) = some (['0', '.'] ++ zeros (n - 1) ++ m) := by
-  unfold sciToPlain
+    sciToPlainU (m ++ 'E' :: '-' :: natDigits n) = some (['0', '.'] ++ zeros (n - 1) ++ m) := by
+  unfold sciToPlainU
   rw [breakOn2_other _ _ _ _ _ hmE (allDigits_natDigits n).not_mem_E (by decide) (by decide)]
   simp only []
   rw [breakOn2_found _ _ _ _ hmE]
@@ -219,7 +220,7 @@ theorem toSci_plain (d : D128) (c : Char) (rest : List Char) (hcr : natDigits d.
 
 theorem plainSpec_eq (d : D128) (c : Char) (rest : List Char) (hcr : natDigits d.coeff = c :: rest) :
     plainSpec d =
-      if d.exp ≥ 0 then signOf d.neg ++ c :: rest ++ zeros d.exp.toNat
+      if d.exp ≥ 0 then signOf d.neg ++ c :: rest ++ zeros (zexp d)
       else if (-d.exp).toNat < rest.length + 1 then
         signOf d.neg ++ (c :: rest).take (rest.length + 1 - (-d.exp).toNat) ++ ['.'] ++
           (c :: rest).drop (rest.length + 1 - (-d.exp).toNat)
@@ -243,14 +244,13 @@ theorem not_mem_sign_digit_dot (n : Bool) (c : Char) (hc : isDigit c = true) : '
 /-- what `Display` prints for a number that `decQuadToString` renders in exponential form -/
 theorem plain_sci (d : D128) (c : Char) (rest : List Char) (hcr : natDigits d.coeff = c :: rest)
     (hlen : rest.length + 1 ≤ 34) (hlo : -6176 ≤ d.exp) (hhi : d.exp ≤ 6111)
-    (hs : d.exp > 0 ∨ ((rest.length + 1 : Nat) : Int) + d.exp < -5) :
-    plain d =
-      if d.exp > 0 then some (signOf d.neg ++ c :: rest ++ zeros d.exp.toNat)
-      else some (['0', '.'] ++ zeros ((-d.exp).toNat - (rest.length + 1)) ++ signOf d.neg ++ c :: rest) := by
+    (hs : d.exp > 0 ∨ ((rest.length + 1 : Nat) : Int) + d.exp < -5) (hneg : d.neg = false) :
+    sciToPlainU (toSci d) =
+      if d.exp > 0 then some (c :: rest ++ zeros (zexp d))
+      else some (['0', '.'] ++ zeros ((-d.exp).toNat - (rest.length + 1)) ++ c :: rest) := by
   have hds := allDigits_natDigits d.coeff
   have hcd : isDigit c = true := hds c (by rw [hcr]; simp)
   have hrest : AllDigits rest := fun x hx => hds x (by rw [hcr]; simp [hx])
-  unfold plain
   rw [toSci_sci d c rest hcr hs]
   by_cases hpos : d.exp > 0
   · rw [if_pos hpos, if_neg (by omega)]
@@ -259,15 +259,35 @@ theorem plain_sci (d : D128) (c : Char) (rest : List Char) (hcr : natDigits d.co
     cases rest with
     | nil =>
       simp only [mantissa]
-      rw [sciToPlain_plus_nodot _ _ (not_mem_sign_digit_dot _ _ hcd) (not_mem_sign_digit_E _ _ hcd)
+      rw [sciToPlainU_plus_nodot _ _ (not_mem_sign_digit_dot _ _ hcd) (not_mem_sign_digit_E _ _ hcd)
         (by simp only [List.length_nil]; omega)]
-      simp
+      rw [hneg]
+      simp only [signOf, Bool.false_eq_true, if_false, List.nil_append, List.all_cons, List.all_nil, Bool.and_true]
+      by_cases hz : d.coeff = 0
+      · have : natDigits d.coeff = ['0'] := by rw [hz]; rfl
+        rw [hcr] at this
+        injection this with h1 _
+        subst h1
+        simp [zexp, hz, zeros]
+      · obtain ⟨c', rest', hc', hne⟩ := natDigits_head d.coeff hz
+        rw [hcr] at hc'
+        injection hc' with h1 _
+        subst h1
+        have : (c == '0') = false := by simpa using hne
+        simp [this, zexp, hz]
     | cons c2 r2 =>
       simp only [mantissa]
+      have hz : d.coeff ≠ 0 := by
+        intro hz
+        have : natDigits d.coeff = ['0'] := by rw [hz]; rfl
+        rw [hcr] at this
+        injection this with _ h2
+        exact absurd h2 (by simp)
       have e1 : signOf d.neg ++ c :: '.' :: c2 :: r2 = (signOf d.neg ++ [c]) ++ '.' :: (c2 :: r2) := by simp
-      rw [e1, sciToPlain_plus_dot _ _ _ (not_mem_sign_digit_dot _ _ hcd) hrest.not_mem_dot
+      rw [e1, sciToPlainU_plus_dot _ _ _ (not_mem_sign_digit_dot _ _ hcd) hrest.not_mem_dot
         (not_mem_sign_digit_E _ _ hcd) hrest.not_mem_E (by omega) (by omega)]
-      simp
+      rw [hneg]
+      simp [signOf, zexp, hz]
   · have hsm : ((rest.length + 1 : Nat) : Int) + d.exp < -5 := by omega
     rw [if_neg hpos, if_pos (by omega)]
     have hn : (((rest.length + 1 : Nat) : Int) + d.exp - 1).natAbs = (-d.exp).toNat - (rest.length + 1) + 1 := by omega
@@ -275,20 +295,22 @@ theorem plain_sci (d : D128) (c : Char) (rest : List Char) (hcr : natDigits d.co
     cases rest with
     | nil =>
       simp only [mantissa]
-      rw [sciToPlain_minus_nodot _ _ (not_mem_sign_digit_dot _ _ hcd) (not_mem_sign_digit_E _ _ hcd)
+      rw [sciToPlainU_minus_nodot _ _ (not_mem_sign_digit_dot _ _ hcd) (not_mem_sign_digit_E _ _ hcd)
         (by simp only [List.length_nil]; omega)]
-      simp
+      rw [hneg]
+      simp [signOf]
     | cons c2 r2 =>
       simp only [mantissa]
       have e1 : signOf d.neg ++ c :: '.' :: c2 :: r2 = (signOf d.neg ++ [c]) ++ '.' :: (c2 :: r2) := by simp
-      rw [e1, sciToPlain_minus_dot _ _ _ (not_mem_sign_digit_dot _ _ hcd) hrest.not_mem_dot
+      rw [e1, sciToPlainU_minus_dot _ _ _ (not_mem_sign_digit_dot _ _ hcd) hrest.not_mem_dot
         (not_mem_sign_digit_E _ _ hcd) hrest.not_mem_E (by omega)]
-      simp
+      rw [hneg]
+      simp [signOf]
 
 /-- what `Display` prints for a number that `decQuadToString` renders without exponent -/
 theorem plain_nosci (d : D128) (c : Char) (rest : List Char) (hcr : natDigits d.coeff = c :: rest)
     (hs : ¬ (d.exp > 0 ∨ ((rest.length + 1 : Nat) : Int) + d.exp < -5)) :
-    plain d = some (plainSpec d) := by
+    sciToPlainU (toSci d) = some (plainSpec d) := by
   have hds := allDigits_natDigits d.coeff
   have hcd : isDigit c = true := hds c (by rw [hcr]; simp)
   have hrest : AllDigits rest := fun x hx => hds x (by rw [hcr]; simp [hx])
@@ -298,14 +320,13 @@ theorem plain_nosci (d : D128) (c : Char) (rest : List Char) (hcr : natDigits d.
     rcases List.mem_cons.mp hh with hh | hh
     · exact isDigit_ne_E hcd hh.symm
     · exact hrest.not_mem_E hh
-  unfold plain
   rw [toSci_plain d c rest hcr hs, plainSpec_eq d c rest hcr]
   by_cases hp : ((rest.length + 1 : Nat) : Int) + d.exp > 0
   · rw [if_pos hp]
     by_cases hlt : ((rest.length + 1 : Nat) : Int) + d.exp < ((rest.length + 1 : Nat) : Int)
     · rw [if_pos hlt, if_neg (by omega : ¬ d.exp ≥ 0), if_pos (by omega : (-d.exp).toNat < rest.length + 1)]
       have hk : (((rest.length + 1 : Nat) : Int) + d.exp).toNat = rest.length + 1 - (-d.exp).toNat := by omega
-      rw [hk, sciToPlain_noE]
+      rw [hk, sciToPlainU_noE]
       simp only [List.mem_append, List.mem_singleton]
       intro hh
       rcases hh with ((hh | hh) | hh) | hh
@@ -314,8 +335,8 @@ theorem plain_nosci (d : D128) (c : Char) (rest : List Char) (hcr : natDigits d.
       · exact absurd hh (by decide)
       · exact hdigE (List.mem_of_mem_drop hh)
     · rw [if_neg hlt, if_pos (by omega : d.exp ≥ 0)]
-      have : d.exp.toNat = 0 := by omega
-      rw [this, sciToPlain_noE]
+      have : zexp d = 0 := by unfold zexp; split <;> omega
+      rw [this, sciToPlainU_noE]
       · simp [zeros]
       · simp only [List.mem_append]
         intro hh; rcases hh with hh | hh
@@ -323,7 +344,7 @@ theorem plain_nosci (d : D128) (c : Char) (rest : List Char) (hcr : natDigits d.
         · exact hdigE hh
   · rw [if_neg hp, if_neg (by omega : ¬ d.exp ≥ 0), if_neg (by omega : ¬ (-d.exp).toNat < rest.length + 1)]
     have hk : (-(((rest.length + 1 : Nat) : Int) + d.exp)).toNat = (-d.exp).toNat - (rest.length + 1) := by omega
-    rw [hk, sciToPlain_noE]
+    rw [hk, sciToPlainU_noE]
     simp only [List.mem_append]
     intro hh
     rcases hh with ((hh | hh) | hh) | hh
@@ -333,6 +354,99 @@ theorem plain_nosci (d : D128) (c : Char) (rest : List Char) (hcr : natDigits d.
     · have := List.eq_of_mem_replicate hh
       exact absurd this (by decide)
     · exact hdigE hh
+
+/-! ### the sign is kept aside -/
+
+theorem sciToPlain_sign (n : Bool) (u : List Char) :
+    sciToPlain (signOf n ++ u) = (sciToPlain u).map (fun t => signOf n ++ t) := by
+  cases n with
+  | false => simp [signOf]
+  | true =>
+    simp only [signOf, if_true, List.singleton_append]
+    rw [sciToPlain]
+    cases sciToPlain u <;> rfl
+
+theorem sciToPlain_of_head (s : List Char) (c : Char) (h : s.head? = some c) (hc : c ≠ '-') :
+    sciToPlain s = sciToPlainU s := by
+  cases s with
+  | nil => simp at h
+  | cons c' l =>
+    simp at h
+    subst h
+    unfold sciToPlain
+    split
+    · next heq => injection heq with h1 _; exact absurd h1 hc
+    · rfl
+
+theorem toSci_sign (d : D128) : toSci d = signOf d.neg ++ toSci ⟨false, d.coeff, d.exp⟩ := by
+  unfold toSci
+  simp only [signOf_eq]
+  simp only [signOf, Bool.false_eq_true, if_false, List.nil_append]
+  split
+  · simp [List.append_assoc]
+  · split
+    · split <;> simp [List.append_assoc]
+    · simp [List.append_assoc]
+
+theorem plainSpec_sign (d : D128) : plainSpec d = signOf d.neg ++ plainSpec ⟨false, d.coeff, d.exp⟩ := by
+  unfold plainSpec zexp
+  simp only [signOf_eq]
+  simp only [signOf, Bool.false_eq_true, if_false, List.nil_append]
+  split
+  · simp [List.append_assoc]
+  · split <;> simp [List.append_assoc]
+
+/-- the text `decQuadToString` prints for a non-negative number starts with a digit -/
+theorem toSci_head (d : D128) (hneg : d.neg = false) : ∃ c, (toSci d).head? = some c ∧ isDigit c = true := by
+  obtain ⟨c, rest, hcr⟩ : ∃ c rest, natDigits d.coeff = c :: rest := by
+    cases hl : natDigits d.coeff with
+    | nil => exact absurd hl (natDigits_ne_nil _)
+    | cons c rest => exact ⟨c, rest, rfl⟩
+  have hcd : isDigit c = true := allDigits_natDigits d.coeff c (by rw [hcr]; simp)
+  by_cases hs : d.exp > 0 ∨ ((rest.length + 1 : Nat) : Int) + d.exp < -5
+  · rw [toSci_sci d c rest hcr hs, hneg]
+    cases rest with
+    | nil => exact ⟨c, by simp [signOf, mantissa], hcd⟩
+    | cons c2 r2 => exact ⟨c, by simp [signOf, mantissa], hcd⟩
+  · rw [toSci_plain d c rest hcr hs, hneg]
+    by_cases hp : ((rest.length + 1 : Nat) : Int) + d.exp > 0
+    · rw [if_pos hp]
+      by_cases hlt : ((rest.length + 1 : Nat) : Int) + d.exp < ((rest.length + 1 : Nat) : Int)
+      · rw [if_pos hlt]
+        obtain ⟨k, hk⟩ : ∃ k, (((rest.length + 1 : Nat) : Int) + d.exp).toNat = k + 1 :=
+          ⟨(((rest.length + 1 : Nat) : Int) + d.exp).toNat - 1, by omega⟩
+        rw [hk]
+        exact ⟨c, by simp [signOf], hcd⟩
+      · rw [if_neg hlt]
+        exact ⟨c, by simp [signOf], hcd⟩
+    · rw [if_neg hp]
+      exact ⟨'0', by simp [signOf], by decide⟩
+
+/-- **`Display` prints the expected plain text, for every finite decimal128** (after the fixes
+4df4c0b and de58a23; never a panic) -/
+theorem plain_eq (d : D128) (hwf : WF d) : plain d = some (plainSpec d) := by
+  obtain ⟨hc, hlo, hhi⟩ := hwf
+  have hu : sciToPlain (toSci ⟨false, d.coeff, d.exp⟩) = some (plainSpec ⟨false, d.coeff, d.exp⟩) := by
+    obtain ⟨c0, h0, hd0⟩ := toSci_head ⟨false, d.coeff, d.exp⟩ rfl
+    rw [sciToPlain_of_head _ c0 h0 (isDigit_ne_minus hd0)]
+    obtain ⟨c, rest, hcr⟩ : ∃ c rest, natDigits d.coeff = c :: rest := by
+      cases hl : natDigits d.coeff with
+      | nil => exact absurd hl (natDigits_ne_nil _)
+      | cons c rest => exact ⟨c, rest, rfl⟩
+    have hlen : (natDigits d.coeff).length ≤ 34 := natDigits_length_le _ 34 (by decide) hc
+    rw [hcr] at hlen
+    simp only [List.length_cons] at hlen
+    by_cases hs : d.exp > 0 ∨ ((rest.length + 1 : Nat) : Int) + d.exp < -5
+    · rw [plain_sci ⟨false, d.coeff, d.exp⟩ c rest hcr hlen hlo hhi hs rfl,
+        plainSpec_eq ⟨false, d.coeff, d.exp⟩ c rest hcr]
+      simp only [signOf, Bool.false_eq_true, if_false, List.nil_append]
+      by_cases hpos : d.exp > 0
+      · rw [if_pos hpos, if_pos (by omega)]
+      · rw [if_neg hpos, if_neg (by omega), if_neg (by omega)]
+    · exact plain_nosci ⟨false, d.coeff, d.exp⟩ c rest hcr hs
+  unfold plain
+  rw [toSci_sign, sciToPlain_sign, hu, plainSpec_sign d]
+  rfl
 
 end D128
 end Dmn
